@@ -2,8 +2,10 @@ package tsdb
 
 import (
 	"strconv"
+	"time"
 
 	"github.com/lindb/lindb/kv"
+	"github.com/lindb/lindb/pkg/option"
 	"github.com/lindb/lindb/pkg/timeutil"
 )
 
@@ -189,4 +191,90 @@ func verifC11FamiliesReach() {
 	got := seg.GetDataFamilies(timeutil.TimeRange{Start: start, End: end})
 	verifObserve("families", len(got))
 	verifAssert(len(got) != 3, "reach")
+}
+
+// C11 / C13 (which segments a query reads): the real intervalSegment.GetDataFamilies (walkSegment over
+// the segment directories, ParseSegmentTime, the expiry and range filters, getOrLoadSegment) over the
+// month-type segments January, February and March 2000, each a real segment holding every family
+// (one per day), and a query range whose ends lie on chosen days around the segment boundaries at
+// symbolic milliseconds - in particular an end that falls exactly on the first millisecond of a
+// segment. A family is returned exactly when the query range (both ends inclusive, as
+// TimeRange.Contains has it) touches its day.
+type verifSegShard struct{ Shard }
+
+func verifC11IntervalSegmentFamilies() {
+	// a fixed zone per path (UTC, +08:00, -05:30): segment names are parsed in the local zone
+	zones := []int{0, 8 * 3600, -5*3600 - 1800}
+	off := zones[verifChoose("zone", len(zones))]
+	time.Local = time.FixedZone("verif", off)
+	verifZoneSec = int64(off)
+	mlen := []int64{31, 29, 31}
+	jan1 := verifDaysBeforeYear(2000)
+	// day offsets from 1 January 2000: 30/31 January, 1/2 February, 29 February, 1/2 March, 31 March
+	days := []int64{29, 30, 31, 32, 59, 60, 61, 90}
+	ds := days[verifChoose("startDay", len(days))]
+	de := days[verifChoose("endDay", len(days))]
+	verifAssume(ds <= de)
+	start := verifMidnight(jan1+ds) + verifRange("startMs", 0, 86399999)
+	end := verifMidnight(jan1+de) + verifRange("endMs", 0, 86399999)
+	verifAssume(start <= end)
+	interval := timeutil.Interval(300000) // 5 minutes: month type
+	newDataFamilyFunc = func(_ Shard, _ Segment, _ timeutil.Interval, tr timeutil.TimeRange, _ int64, _ kv.Family) DataFamily {
+		return &verifQueryFamily{tr: tr}
+	}
+	names := []string{"200001", "200002", "200003"}
+	listDir = func(string) ([]string, error) { return names, nil }
+	segs := map[string]*segment{}
+	newSegmentFunc = func(_ Shard, segmentName string, iv timeutil.Interval) (Segment, error) {
+		base, err := iv.Calculator().ParseSegmentTime(segmentName)
+		if err != nil {
+			return nil, err
+		}
+		store := &verifFamilyStore{}
+		for i, nm := range names {
+			if nm == segmentName {
+				for d := int64(1); d <= mlen[i]; d++ {
+					store.names = append(store.names, strconv.Itoa(int(d)))
+				}
+			}
+		}
+		seg := &segment{kvStore: store, families: map[int]DataFamily{}, baseTime: base, interval: iv}
+		segs[segmentName] = seg
+		return seg, nil
+	}
+	is := &intervalSegment{
+		shard:    &verifSegShard{},
+		segments: map[string]Segment{},
+		dir:      "/seg",
+		interval: option.Interval{Interval: interval, Retention: timeutil.Interval(200 * 366 * 86400000)},
+	}
+	got := is.GetDataFamilies(timeutil.TimeRange{Start: start, End: end})
+	selected := map[int64]bool{}
+	count := 0
+	monthStart := []int64{0, 31, 60}
+	for _, f := range got {
+		for i, nm := range names {
+			seg := segs[nm]
+			if seg == nil {
+				continue
+			}
+			for num, sf := range seg.families {
+				if sf == f {
+					day := monthStart[i] + int64(num-1)
+					if !selected[day] {
+						count++
+					}
+					selected[day] = true
+					verifAssert(f.(*verifQueryFamily).tr.Start == verifMidnight(jan1+day), "a family's range starts at the local midnight of its day")
+				}
+			}
+		}
+	}
+	verifAssert(count == len(got), "every returned family is a family of a segment, once")
+	for d := int64(0); d < 91; d++ {
+		dayStart := verifMidnight(jan1 + d)
+		dayEnd := verifMidnight(jan1+d+1) - 1
+		verifAssert(selected[d] == (dayStart <= end && dayEnd >= start), "a family is returned exactly when the query range touches its day (across segments)")
+	}
+	verifReach("end")
 }
